@@ -220,6 +220,11 @@ pub struct ReplayFile {
     pub repo_rev: String,
     #[serde(default)]
     pub note: String,
+    /// The outcome depends on a source of nondeterminism inside the code under test that the
+    /// simulator cannot own (e.g. iteration order of a randomly keyed HashMap): replay is
+    /// best-effort and re-executes the file several times.
+    #[serde(default)]
+    pub unstable: bool,
 }
 
 #[derive(Serialize, Deserialize, Clone, Debug)]
@@ -581,17 +586,49 @@ fn worker_main<E: Engine>(args: &Args, i: u64, n: u64) -> i32 {
             let v3 = exec::<E>(prop, &cfg, &mut ch3, &mut c3);
             out.determinism_checked += 1;
             if v2.is_some() || c2.trace_hash() != h1 {
-                out.determinism_mismatch
-                    .push(format!("seed {seed}: second seeded run differs"));
+                // Same seed, different execution. If some re-execution violates the property the
+                // divergence comes from the code under test (a source of nondeterminism the
+                // simulator does not own) and is reported as an unstable violation; otherwise it
+                // is a harness problem.
+                let mut hit = v2.map(|v| (v, ch2.taken.clone()));
+                for _ in 0..12 {
+                    if hit.is_some() {
+                        break;
+                    }
+                    let mut cx = RunCtx::new(false);
+                    let mut chx = Chooser::seeded(rng.clone(), max);
+                    if let Some(v) = exec::<E>(prop, &cfg, &mut chx, &mut cx) {
+                        hit = Some((v, chx.taken.clone()));
+                    }
+                }
+                match hit {
+                    Some((v, taken)) => found(&mut out, &mut seen_keys, seed, "unstable", v.fact("unstable", true), &cfg, &taken),
+                    None => out.determinism_mismatch.push(format!("seed {seed}: second seeded run differs")),
+                }
             } else if v3.is_some() || c3.trace_hash() != h1 {
                 let t2 = c2.trace.unwrap_or_default();
                 let t3 = c3.trace.unwrap_or_default();
                 let at = t2.iter().zip(t3.iter()).position(|(a, b)| a != b);
+                let mut hit = v3.map(|v| (v, ch3.taken.clone()));
+                for _ in 0..12 {
+                    if hit.is_some() {
+                        break;
+                    }
+                    let mut cx = RunCtx::new(false);
+                    let mut chx = Chooser::seeded(rng.clone(), max);
+                    if let Some(v) = exec::<E>(prop, &cfg, &mut chx, &mut cx) {
+                        hit = Some((v, chx.taken.clone()));
+                    }
+                }
+                if let Some((v, taken)) = hit {
+                    found(&mut out, &mut seen_keys, seed, "unstable", v.fact("unstable", true), &cfg, &taken);
+                } else {
                 out.determinism_mismatch.push(format!(
                     "seed {seed}: replay of recorded actions differs at event {at:?}: {:?} vs {:?}",
                     at.and_then(|i| t2.get(i)),
                     at.and_then(|i| t3.get(i))
                 ));
+                }
             }
             for (s, n) in c2.stats.iter().chain(c3.stats.iter()) {
                 let _ = (s, n); // self-check runs do not contribute to counters
@@ -750,13 +787,17 @@ fn replay_main<E: Engine>(args: &Args, file: &Path) -> i32 {
         return 2;
     }
     let quiet = std::env::var("VERIF_REPLAY_QUIET").is_ok();
+    let attempts = if rf.unstable { 40 } else { 1 };
     // panics inside simulated code are part of the trace (injected faults, real defects): one line
     std::panic::set_hook(Box::new(move |info| {
         if !quiet {
             println!("  ! panic: {info}");
         }
     }));
-    let (v, taken, ctx) = match &rf.actions {
+    let mut attempt = 0;
+    let (v, taken, ctx) = loop {
+      attempt += 1;
+      let r = match &rf.actions {
         Some(a) => {
             let cfg: E::Config = match serde_json::from_value(rf.config.clone()) {
                 Ok(c) => c,
@@ -783,8 +824,15 @@ fn replay_main<E: Engine>(args: &Args, file: &Path) -> i32 {
             let v = exec::<E>(&args.prop, &cfg, &mut ch, &mut ctx);
             (v, ch.taken, ctx)
         }
+      };
+      if r.0.is_some() || attempt >= attempts {
+          break r;
+      }
     };
     if !quiet {
+        if rf.unstable {
+            println!("unstable replay: attempt {attempt} of up to {attempts}");
+        }
         println!("replay {} seed={} engine={}", file.display(), rf.seed, E::NAME);
         println!("config: {}", rf.config);
         for (i, a) in taken.iter().enumerate() {
@@ -1091,7 +1139,17 @@ fn parent_main<E: Engine>(args: &Args) -> i32 {
         all_done &= w.completed;
     }
 
-    if !merged.determinism_mismatch.is_empty() {
+    // A divergence between two executions of one seed is a harness problem -- unless some
+    // divergent execution violated the property: then the nondeterminism sits in the code under
+    // test (the unchanged tree is deterministic under this harness) and the violation is reported.
+    let unstable_found = found.iter().any(|f| f.kind == "unstable");
+    if !merged.determinism_mismatch.is_empty() && unstable_found {
+        println!(
+            "note: {} seed(s) executed differently on re-execution; attributed to the code under test because divergent executions violate the property",
+            merged.determinism_mismatch.len()
+        );
+    }
+    if !merged.determinism_mismatch.is_empty() && !unstable_found {
         for m in merged.determinism_mismatch.iter().take(5) {
             eprintln!("harness error: nondeterminism: {m}");
         }
@@ -1142,8 +1200,10 @@ fn parent_main<E: Engine>(args: &Args) -> i32 {
     let rev = repo_rev();
     for (class, f) in per_class.into_iter().take(4) {
         // minimise (in a child when real code may hang)
-        let (cfg_v, acts_v, viol) = if f.actions.is_empty() || f.config.is_null() {
-            (f.config.clone(), None, f.violation.clone())
+        let unstable = f.kind == "unstable";
+        let (cfg_v, acts_v, viol) = if f.actions.is_empty() || f.config.is_null() || unstable {
+            let acts = if unstable { Some(f.actions.clone()) } else { None };
+            (f.config.clone(), acts, f.violation.clone())
         } else {
             let inp = tmp.join(format!("shrink-in-{class}.json"));
             let outp = tmp.join(format!("shrink-out-{class}.json"));
@@ -1185,6 +1245,7 @@ fn parent_main<E: Engine>(args: &Args) -> i32 {
             expect: json!({"class": class, "at_action": n_actions, "detail": viol.detail, "facts": viol.facts}),
             repo_rev: rev.clone(),
             note: format!("found by {} run; original length {} actions", f.kind, f.actions.len()),
+            unstable,
         };
         fs::write(&file, serde_json::to_vec_pretty(&rf).unwrap()).unwrap();
         // round trip in a fresh process
